@@ -926,9 +926,38 @@ theorem prDefines_length (ds : List (String × String)) : (prDefines ds).length 
   | nil => rfl
   | cons kv ds ih => obtain ⟨k, v⟩ := kv; simp [prDefines, ih]; omega
 
-/-- the printed specification parses to its declarations -/
-theorem parseMal_prSpec (s : CSpec) (hw : WFSpec s) : parseMal (prSpec s) = some (declsOf s) := by
-  unfold parseMal
+/-- the first token of a non-empty printed specification starts a declaration -/
+theorem prSpec_head (s : CSpec) (t : Tok) (r : List Tok) (h : prSpec s = t :: r) : startsDecl t = true := by
+  unfold prSpec at h
+  cases hd : s.defines with
+  | cons kv ds => obtain ⟨k, v⟩ := kv; simp [hd, prDefines] at h; rw [← h.1]; rfl
+  | nil =>
+    cases hc : s.categories with
+    | cons c cs => obtain ⟨n, m⟩ := c; simp [hd, hc, prDefines, prCategories] at h; rw [← h.1]; rfl
+    | nil =>
+      cases ha : s.associations with
+      | cons a as => simp [hd, hc, ha, prDefines, prCategories] at h; rw [← h.1]; rfl
+      | nil => simp [hd, hc, ha, prDefines, prCategories] at h
+
+/-- nothing printed: no defines, categories, associations -/
+theorem declsOf_of_prSpec_nil (s : CSpec) (h : prSpec s = []) : declsOf s = [] := by
+  have hd : s.defines = [] := by
+    cases hs : s.defines with
+    | nil => rfl
+    | cons kv ds => obtain ⟨k, v⟩ := kv; simp [prSpec, hs, prDefines] at h
+  have hc : s.categories = [] := by
+    cases hs : s.categories with
+    | nil => rfl
+    | cons c cs => obtain ⟨n, m⟩ := c; simp [prSpec, hd, hs, prDefines, prCategories] at h
+  have ha : s.associations = [] := by
+    cases hs : s.associations with
+    | nil => rfl
+    | cons a as => simp [prSpec, hd, hc, hs, prDefines, prCategories] at h
+  simp [declsOf, hd, hc, ha]
+
+/-- the printed specification parses to its declarations (the prefix parser of the grammar as written) -/
+theorem parseMalPrefix_prSpec (s : CSpec) (hw : WFSpec s) : parseMalPrefix (prSpec s) = some (declsOf s) := by
+  unfold parseMalPrefix
   split
   · rename_i h
     -- nothing printed: no defines, categories, associations
@@ -980,6 +1009,144 @@ theorem parseMal_prSpec (s : CSpec) (hw : WFSpec s) : parseMal (prSpec s) = some
       have : prAssocs s.associations ++ [Tok.rcurly] = prAssocs s.associations ++ Tok.rcurly :: [] := rfl
       rw [hg, this, parseDecls_assocBlock s.associations hw.assocWF (g+1) _ [] (by omega), parseDecls_nil]
       simp
+
+/-! #### the same with the unconsumed tokens (`parseDeclsRest`, `parseMalRest`) and the compiler's `parseMal` -/
+
+theorem parseDeclsRest_zero (acc : List Decl) (ts : List Tok) : parseDeclsRest 0 acc ts = none := by
+  simp only [parseDeclsRest]
+
+theorem parseDeclsRest_nil (f : Nat) (acc : List Decl) : parseDeclsRest (f+1) acc [] = some (acc, []) := by
+  simp only [parseDeclsRest]
+
+theorem parseDeclsRest_stop (f : Nat) (acc : List Decl) (t : Tok) (ts : List Tok) (h : startsDecl t = false) :
+    parseDeclsRest (f+1) acc (t :: ts) = some (acc, t :: ts) := by
+  simp only [parseDeclsRest, h]; rfl
+
+theorem parseDeclsRest_cons (f : Nat) (acc : List Decl) (t : Tok) (ts : List Tok) (h : startsDecl t = true) :
+    parseDeclsRest (f+1) acc (t :: ts) =
+      (parseDecl f (t :: ts)).bind (fun r => parseDeclsRest f (acc ++ [r.1]) r.2) := by
+  simp only [parseDeclsRest, h, if_true]
+  cases parseDecl f (t :: ts) <;> rfl
+
+/-- `parseDecls` is `parseDeclsRest` without the rest -/
+theorem parseDecls_eq_rest (f : Nat) (acc : List Decl) (ts : List Tok) :
+    parseDecls f acc ts = (parseDeclsRest f acc ts).map (·.1) := by
+  induction f generalizing acc ts with
+  | zero => rw [parseDecls_zero, parseDeclsRest_zero]; rfl
+  | succ f ih =>
+    cases ts with
+    | nil => rw [parseDecls_nil, parseDeclsRest_nil]; rfl
+    | cons t r =>
+      cases hs : startsDecl t with
+      | false => rw [parseDecls_stop _ _ _ _ hs, parseDeclsRest_stop _ _ _ _ hs]; rfl
+      | true =>
+        rw [parseDecls_cons _ _ _ _ hs, parseDeclsRest_cons _ _ _ _ hs]
+        cases parseDecl f (t :: r) with
+        | none => rfl
+        | some x => simp only [Option.bind_some]; exact ih _ _
+
+/-- the prefix parser is `parser.mal()` without looking at what is left in the stream -/
+theorem parseMalPrefix_eq_rest (ts : List Tok) : parseMalPrefix ts = (parseMalRest ts).map (·.1) := by
+  unfold parseMalPrefix parseMalRest
+  cases ts with
+  | nil => rfl
+  | cons t r =>
+    simp only
+    split
+    · exact parseDecls_eq_rest _ _ _
+    · rfl
+
+theorem parseDeclsRest_prDefines (ds : List (String × String)) (hq : ∀ kv ∈ ds, noQuote kv.2) (f : Nat)
+    (acc : List Decl) (Y : List Tok) (hf : ds.length ≤ f) :
+    parseDeclsRest f acc (prDefines ds ++ Y) =
+      parseDeclsRest (f - ds.length) (acc ++ ds.map (fun kv => Decl.define kv.1 kv.2)) Y := by
+  induction ds generalizing f acc with
+  | nil => simp [prDefines]
+  | cons kv ds ih =>
+    obtain ⟨k, v⟩ := kv
+    obtain ⟨f, rfl⟩ : ∃ g, f = g + 1 := ⟨f - 1, by simp at hf; omega⟩
+    simp only [prDefines, List.cons_append]
+    rw [parseDeclsRest_cons _ _ _ _ rfl, parseDecl_define, stripQuotes_quote v (hq (k, v) (by simp))]
+    simp only [Option.bind_some]
+    rw [ih (fun x hx => hq x (by simp [hx])) f _ (by simpa using hf)]
+    simp
+
+theorem parseDeclsRest_prCategories (A : List CAsset) (hA : ∀ a ∈ A, WFAsset a) (cs : List (String × Meta))
+    (hm : ∀ c ∈ cs, WFMeta c.2) (f : Nat) (acc : List Decl) (Y : List Tok)
+    (hf : 2 * (prCategories A cs).length + 4 ≤ f) :
+    parseDeclsRest f acc (prCategories A cs ++ Y) =
+      parseDeclsRest (f - cs.length)
+        (acc ++ cs.map (fun c => Decl.category c.1 c.2 (A.filter (·.category = c.1)))) Y := by
+  induction cs generalizing f acc with
+  | nil => simp [prCategories]
+  | cons c cs ih =>
+    obtain ⟨n, m⟩ := c
+    obtain ⟨f, rfl⟩ : ∃ g, f = g + 1 := ⟨f - 1, by omega⟩
+    simp only [prCategories, List.length_cons, List.length_append] at hf
+    have hlm := prMetas_length m
+    simp only [prCategories, List.cons_append, List.append_assoc]
+    rw [parseDeclsRest_cons _ _ _ _ rfl, parseDecl_category,
+      parseMetas_prMetas m f [] _ (by omega) rfl (by simpa using (hm (n, m) (by simp)).1) (hm (n, m) (by simp)).2]
+    unfold catStage
+    simp only [List.nil_append]
+    rw [parseAssets_prAssets (A.filter (·.category = n)) n (by intro a ha; simpa using (List.mem_filter.mp ha).2)
+      (fun a ha => hA a (List.mem_filter.mp ha).1) f [] _ (by omega)]
+    simp only [Option.map_some, Option.bind_some, List.nil_append]
+    rw [ih (fun x hx => hm x (by simp [hx])) f _ (by omega)]
+    simp
+
+theorem parseDeclsRest_assocBlock (as : List CAssoc) (hw : ∀ a ∈ as, WFAssoc a) (f : Nat) (acc : List Decl)
+    (Y : List Tok) (hf : (prAssocs as).length + 1 ≤ f) :
+    parseDeclsRest (f+1) acc (.kwAssociations :: .lcurly :: (prAssocs as ++ .rcurly :: Y)) =
+      parseDeclsRest f (acc ++ [Decl.associations as]) Y := by
+  rw [parseDeclsRest_cons _ _ _ _ rfl, parseDecl_associations, parseAssociationsBody_prAssocs as hw f [] Y hf]
+  simp
+
+/-- `parser.mal()` on a printed specification: its declarations, and nothing is left in the stream -/
+theorem parseMalRest_prSpec (s : CSpec) (hw : WFSpec s) : parseMalRest (prSpec s) = some (declsOf s, []) := by
+  unfold parseMalRest
+  split
+  · rename_i h
+    rw [declsOf_of_prSpec_nil s h]
+  · rename_i t r h
+    rw [if_pos (prSpec_head s t r h)]
+    have hl1 := prDefines_length s.defines
+    have hl2 := prCategories_length s.assets s.categories
+    unfold prSpec declsOf
+    simp only [List.append_assoc]
+    generalize hF : 2 * (prDefines s.defines ++ (prCategories s.assets s.categories ++
+      if s.associations = [] then [] else
+        Tok.kwAssociations :: Tok.lcurly :: (prAssocs s.associations ++ [Tok.rcurly]))).length + 8 = F
+    simp only [List.length_append] at hF
+    rw [parseDeclsRest_prDefines s.defines hw.defVals F [] _ (by omega),
+      parseDeclsRest_prCategories s.assets hw.assetWF s.categories hw.catMeta _ _ _ (by omega)]
+    by_cases ha : s.associations = []
+    · simp only [ha, if_true, List.nil_append, List.append_nil]
+      obtain ⟨g, hg⟩ : ∃ g, F - s.defines.length - s.categories.length = g + 1 :=
+        ⟨F - s.defines.length - s.categories.length - 1, by omega⟩
+      rw [hg, parseDeclsRest_nil]
+    · simp only [ha, if_false, List.nil_append] at hF ⊢
+      simp only [List.length_cons, List.length_append, List.length_nil] at hF
+      obtain ⟨g, hg⟩ : ∃ g, F - s.defines.length - s.categories.length = g + 2 :=
+        ⟨F - s.defines.length - s.categories.length - 2, by omega⟩
+      have : prAssocs s.associations ++ [Tok.rcurly] = prAssocs s.associations ++ Tok.rcurly :: [] := rfl
+      rw [hg, this, parseDeclsRest_assocBlock s.associations hw.assocWF (g+1) _ [] (by omega), parseDeclsRest_nil]
+      simp
+
+/-- the compiler's verdict in terms of `parser.mal()` -/
+theorem parseMal_eq_some_iff (ts : List Tok) (ds : List Decl) :
+    parseMal ts = some ds ↔ parseMalRest ts = some (ds, []) := by
+  unfold parseMal
+  split
+  · rename_i ds' h; rw [h]; simp
+  · rename_i h
+    constructor
+    · intro h'; exact absurd h' (by simp)
+    · intro h'; exact absurd h' (h ds)
+
+/-- **the printed specification is consumed completely**: accepted by the compiler's verdict (with `EOF` check) -/
+theorem parseMal_prSpec (s : CSpec) (hw : WFSpec s) : parseMal (prSpec s) = some (declsOf s) :=
+  (parseMal_eq_some_iff _ _).mpr (parseMalRest_prSpec s hw)
 
 
 /-! ### first-occurrence de-duplication -/
@@ -1103,9 +1270,36 @@ theorem compileFile_succ (files : String → Option String) (f : Nat) (name : St
     | none => rfl
     | some decls => rfl
 
-/-- a text that lexes completely is parsed as its token list -/
+/-- a text that lexes completely is judged by its token list -/
 theorem parseSource_of_lex {src : String} {ts : List Tok} (h : lex src = some ts) : parseSource src = parseMal ts := by
   simp [parseSource, h]
+
+/-- a text that does not lex is rejected -/
+theorem parseSource_of_lex_none {src : String} (h : lex src = none) : parseSource src = none := by
+  simp [parseSource, h]
+
+/-- the control flow of the on-demand token stream (`frontEnd`) ends in a specification exactly when `parseSource`
+returns it: whichever of the three ways a text with a lexical error takes, it is an error -/
+theorem frontEnd_accepts_iff (src : String) (ds : List Decl) :
+    frontEnd src = .spec ds ↔ parseSource src = some ds := by
+  unfold frontEnd
+  cases hl : lex src with
+  | none =>
+    rw [parseSource_of_lex_none hl]
+    simp only
+    constructor
+    · intro h; split at h <;> exact absurd h (by simp)
+    · intro h; exact absurd h (by simp)
+  | some ts =>
+    rw [parseSource_of_lex hl, parseMal_eq_some_iff]
+    simp only
+    constructor
+    · intro h
+      split at h
+      · exact absurd h (by simp)
+      · rename_i ds' hp; simp only [FrontEnd.spec.injEq] at h; rw [hp, h]
+      · exact absurd h (by simp)
+    · intro h; rw [h]
 
 theorem foldl_metaPut_nodup (ds d0 : List (String × String)) (h : ((d0 ++ ds).map (·.1)).Nodup) :
     ds.foldl (fun d kv => metaPut d kv.1 kv.2) d0 = d0 ++ ds := by
